@@ -54,4 +54,14 @@ META = {
         "design_ref": "DESIGN.md section 6 C09, Appendix F.5",
         "note": "Trusted: as C06. Bound: <= 2 outstanding requests, 3 (quick) / 4 (thorough) events.",
     },
+    "C02": {
+        "text": "Bounded model checking of the IE -> netlink translation for PDR and FAR: child IEs are built at wire level with every payload byte, the 64-bit SEID and the link index symbolic; the request captured behind nl.(*Client).Do is decoded by go-gtp5gnl's own decoders and compared field by field with reference values computed from the payload bytes, walked against a golden attribute type/nesting/width table, and required to be independent of child-IE order (block permutations, reversed grouped children).",
+        "design_ref": "DESIGN.md section 6 C02",
+        "note": "Trusted: go-gtp5gnl decoders + golden width table as the 'independent decoder of the gtp5g netlink format' (kernel sources unavailable), engine + z3. Bound: 3 presence profiles x 6 block permutations (quick); all 1728 PDR / 144 FAR presence subsets plus 24 permutations (thorough).",
+    },
+    "C03": {
+        "text": "Same machinery for QER, URR and BAR: 40-bit rates checked through the (high32<<8)|low8 identity for UL and DL separately, flag octets, LE-widened trigger word, threshold/quota volumes present iff flagged, BAR delay and packet count, plus the periodic registration read back from the perio server's queue (registered iff PERIO, with period == seconds x 1e9) for Create, Update-after-Create and Remove.",
+        "design_ref": "DESIGN.md section 6 C03",
+        "note": "Trusted: as C02. Known findings (open): Gtp5g.UpdateURR never (un)registers periodic reporting (3 keys). Bound: 3 presence profiles (quick) / all subsets (thorough), all rotations of the child order, plain and reversed.",
+    },
 }
